@@ -17,7 +17,7 @@ from types import SimpleNamespace
 
 from ..alg import Poly, Q, MQ, Rat, is_zero
 from ..repo import AnalysisError, dotted, norm_text
-from ..xeval import Interp, XObj, Opaque, _NpAttr, _Bound, XRaise
+from ..xeval import Uninterpretable, Interp, XObj, Opaque, _NpAttr, _Bound, XRaise
 from ..xarray import XArray
 from ..femchain import XFe, fe_hook_full
 
@@ -65,7 +65,36 @@ def frame_rule(ctx):
         obj = XObj(eb, dict(Ne=1, nPe=nPe))
         obj.attrs["Get_Elements_Tag"] = lambda tag: [0]
         bs = SimpleNamespace(dof_n=dof_n, beams=[beam], dim=2 if dof_n == 3 else 3)
-        X = XArray.from_nested(I.call_function(fP, [bs], self_obj=obj))
+        try:
+            X = XArray.from_nested(I.call_function(fP, [bs], self_obj=obj))
+        except Uninterpretable as e_sym:
+            # the frame code decides something on the VALUES of the axes (a comparison of a component): the symbolic frame cannot
+            # follow it; the same identity is decided on exact orthonormal frames of every orientation instead
+            num_frames = [((Q(1), Q(0), Q(0)), (Q(0), Q(1), Q(0))), ((Q(-1), Q(0), Q(0)), (Q(0), Q(1), Q(0))), ((Q(3, 5), Q(4, 5), Q(0)), (Q(-4, 5), Q(3, 5), Q(0))), ((Q(-3, 5), Q(-4, 5), Q(0)), (Q(-4, 5), Q(3, 5), Q(0)))]
+            if dof_n == 6:
+                num_frames += [((Q(2, 3), Q(2, 3), Q(1, 3)), (Q(-2, 3), Q(1, 3), Q(2, 3))), ((Q(-2, 3), Q(-2, 3), Q(-1, 3)), (Q(-2, 3), Q(1, 3), Q(2, 3))), ((Q(0), Q(0), Q(1)), (Q(0), Q(1), Q(0)))]
+            badn = None
+            for fi_, fj_ in num_frames:
+                fk_ = cross(list(fi_), list(fj_))
+                beam_n = XObj(beam_cls, dict(line=SimpleNamespace(unitVector=XArray((3,), list(fi_))), yAxis=XArray((3,), list(fj_)), name="b0", dim=2 if dof_n == 3 else 3))
+                bs_n = SimpleNamespace(dof_n=dof_n, beams=[beam_n], dim=2 if dof_n == 3 else 3)
+                try:
+                    Xn = XArray.from_nested(I.call_function(fP, [bs_n], self_obj=obj))
+                except (XRaise, Uninterpretable) as e2:
+                    raise AnalysisError(f"R10.1: the frame block cannot be interpreted symbolically ({e_sym}) nor on exact frames ({e2})")
+                axes_n = [list(fi_), list(fj_), fk_]
+                nn = dof_n * nPe
+                for a in range(nn):
+                    for b in range(nn):
+                        want = Q(0) if a // 3 != b // 3 else axes_n[a % 3][b % 3]
+                        if badn is None and not is_zero(Xn[0, 0, a, b] - want):
+                            badn = (fi_, fj_, a, b, Xn[0, 0, a, b], want)
+            if badn is None:
+                r.ok(f"dof_n={dof_n}: every 3x3 diagonal block has rows (i, j, i x j) on {len(num_frames)} exact frames (the code branches on the axis values)")
+            else:
+                fi_, fj_, a, b, got, want = badn
+                r.fail(fP.qualname, "parity", fP.file, fP.lineno, "_Compute_P_e_pg", f"dof_n={dof_n}, member frame i = {[str(x) for x in fi_]}, j = {[str(x) for x in fj_]}: block entry [{a},{b}] is {got}, expected {want} (rows = local axes i, j, i x j): the frame applied to the dofs is not the right-handed frame of the member - rotations are read against the translations")
+            continue
         n = dof_n * nPe
         if X.shape != (1, 1, n, n):
             r.fail(fP.qualname, f"shape{dof_n}", fP.file, fP.lineno, "_Compute_P_e_pg", f"block matrix has shape {X.shape}")
@@ -335,7 +364,7 @@ def stored_frame_rule(ctx):
     from ..xeval import FuncInfo, _Bound
 
     repo = ctx.repo
-    r = ctx.rule("R10.8", "beam frame: for any given vertical axis the stored y axis is unit and orthogonal to the fibre, and _Calc_P is orthogonal (P P^T = I), on exact inclined directions, collinear given axes included", min_instances=8)
+    r = ctx.rule("R10.8", "beam frame: for any given vertical axis the stored y axis is unit and orthogonal to the fibre, and _Calc_P is orthogonal (P P^T = I), on exact inclined directions, collinear given axes included; right-handed (third axis = i x j) also for members drawn towards -x", min_instances=11)
     bm = repo.cls(BEAM_MODEL)
     fset = bm.setters["yAxis"]
     fP = bm.methods["_Calc_P"]
@@ -370,6 +399,10 @@ def stored_frame_rule(ctx):
         ((Q(3, 5), Q(4, 5), Q(0)), (Q(3), Q(4), Q(0))),
         ((Q(0), Q(0), Q(1)), (Q(0), Q(0), Q(1))),
         ((Q(0), Q(0), Q(-1)), (Q(0), Q(0), Q(5))),
+        # members drawn towards -x (the third axis i x j then points to -z in the plane)
+        ((Q(-1), Q(0), Q(0)), (Q(0), Q(1), Q(0))),
+        ((Q(-3, 5), Q(-4, 5), Q(0)), (Q(0), Q(1), Q(0))),
+        ((Q(-2, 3), Q(2, 3), Q(1, 3)), (Q(0), Q(0), Q(1))),
     ]
     for fibre, given in cases:
         r.instance(fn=fset.qualname + ".setter")
@@ -398,6 +431,13 @@ def stored_frame_rule(ctx):
                 v = sum((P[a, k] * P[b, k] for k in range(3)), Q(0))
                 if not is_zero(v - (1 if a == b else 0)):
                     problems.append(f"(P P^T)[{a},{b}] = {v}")
+        # right-handed: the columns of P are (i, j, i x j) - a reflection [i, j, -(i x j)] is orthogonal too, but it turns the
+        # rotation dofs against the translations (a rigid rotation of the member stores energy)
+        col = lambda c: [P[a, c] for a in range(3)]
+        ixj = cross(col(0), col(1))
+        if not problems and any(not is_zero(col(2)[a] - ixj[a]) for a in range(3)):
+            r.fail(fP.qualname, "frame-left-handed", fP.file, fP.lineno, "_Beam._Calc_P", f"{tag}: the third axis of the member frame is {[str(x) for x in col(2)]}, i x j = {[str(x) for x in ixj]}: the frame is a reflection (det P = -1): the rotation dofs of the member are read with the wrong sign relative to its translations, a rigid rotation is no longer a zero-energy mode")
+            continue
         if problems:
             r.fail(fset.qualname + ".setter", "frame-not-orthonormal", fset.file, fset.lineno, "_Beam.yAxis.setter", f"{tag}: {problems[0]} (and {len(problems) - 1} more): the local transverse displacement and the bending stiffness are scaled by the length of the stored axis - the response of a member depends on its inclination")
         else:
